@@ -211,7 +211,7 @@ class Z3Solver:
                 return False, st[0], st[1], d
         return True, "unsat", None, None
 
-    def prove_equal(self, pre: Sequence[T], lhs: T, rhs: T, skip_den: bool = False):
+    def prove_equal(self, pre: Sequence[T], lhs: T, rhs: T, skip_den: bool = False, norm_budget: float = 0.3):
         """Decide Pre => lhs == rhs.  Returns dict(status, model, why)."""
         if lhs is rhs:
             return {"status": "unsat", "trivial": True}
@@ -228,28 +228,42 @@ class Z3Solver:
             return {"status": "unsat", "trivial": True}
         # pre-solver normalisation: expand the division-free difference into a canonical polynomial over its atoms; when it is
         # the zero polynomial the goal `0 != 0` is false for every value of the atoms (counted as a normalised, trivial query)
-        # sums of many fractions: per-denominator groups instead of one common denominator
-        try:
-            if tm.size([lhs, rhs]) < 20000 and tm.denominators([lhs, rhs]) and tm.rational_zero(tm.sub(lhs, rhs)):
-                self.stats.normalised = getattr(self.stats, "normalised", 0) + 1
-                return {"status": "unsat", "trivial": True, "normalised": True}
-        except (tm.PolyTooLarge, RecursionError):
-            pass
-        # Shared sub-terms may be abstracted by fresh atoms first (an identity that holds with sub-terms treated as
-        # independent unknowns holds a fortiori); the full expansion is the last attempt.
-        if tm.size([cross]) < 20000:
-            for thr in (6, 24, 96, None):
-                try:
-                    opaque = tm.shared_nodes(cross, thr) if thr is not None else None
-                    if thr is not None and not opaque:
-                        continue
-                    if not tm.polynomial(cross, limit=20000 if thr is not None else 60000, opaque=opaque):
-                        self.stats.normalised = getattr(self.stats, "normalised", 0) + 1
-                        return {"status": "unsat", "trivial": True, "normalised": True}
-                except (tm.PolyTooLarge, RecursionError):
-                    continue
+        # pre-solver normalisation under a small time budget; the solver; then normalisation again with a larger budget
+        if self._normalise(lhs, rhs, cross, norm_budget):
+            return {"status": "unsat", "trivial": True, "normalised": True}
         status, model, dt = self.check(list(pre) + [goal])
+        if status == "unknown" and self._normalise(lhs, rhs, cross, 20.0):
+            return {"status": "unsat", "trivial": True, "normalised": True}
         return {"status": status, "model": model}
+
+    def _normalise(self, lhs: T, rhs: T, cross: T, budget: float) -> bool:
+        """Expand the difference into a canonical polynomial over its atoms; the zero polynomial means the goal is `0 != 0`
+        for every value of the atoms (counted as a normalised, trivial query). Sufficient, never necessary."""
+        tm.set_poly_budget(budget)
+        try:
+            # sums of many fractions: per-denominator groups instead of one common denominator
+            try:
+                if tm.size([lhs, rhs]) < 20000 and tm.denominators([lhs, rhs]) and tm.rational_zero(tm.sub(lhs, rhs)):
+                    self.stats.normalised += 1
+                    return True
+            except (tm.PolyTooLarge, RecursionError):
+                pass
+            # shared sub-terms may be abstracted by fresh atoms first (an identity that holds with sub-terms treated as
+            # independent unknowns holds a fortiori); the full expansion is the last attempt
+            if tm.size([cross]) < 20000:
+                for thr in (6, 24, 96, None):
+                    try:
+                        opaque = tm.shared_nodes(cross, thr) if thr is not None else None
+                        if thr is not None and not opaque:
+                            continue
+                        if not tm.polynomial(cross, limit=20000 if thr is not None else 60000, opaque=opaque):
+                            self.stats.normalised += 1
+                            return True
+                    except (tm.PolyTooLarge, RecursionError):
+                        continue
+            return False
+        finally:
+            tm.set_poly_budget(None)
 
     def prove(self, pre: Sequence[T], goal: T):
         """Decide Pre => goal (boolean term)."""
